@@ -151,6 +151,20 @@ def lon_for_end_of_utc_day(rng, lat, lon, d, idx):
 
 
 def gen_riseset(rng, n, tier="quick"):
+    # consecutive dates for one observer, in ascending order, across two lunar months: state
+    # carried from one day's scan to the next (cached, mutated positions) shows up
+    for sweep in range(2 if n >= 1000 else 1):
+        lat, lon = rng.uniform(-55, 55), gens.rand_lon(rng)
+        o = Observer(lat, lon)
+        d0 = gens.rand_date(rng, wide=False)
+        for k in range(62):
+            d = d0 + datetime.timedelta(days=k)
+            name = "moonrise" if (k + sweep) % 2 == 0 else "moonset"
+            st, v = call(getattr(moon, name), o, d)
+            yield Case(name, "%s %s %s %s %s" % (name, F(lat), F(lon), I(d.toordinal()), zones.fixed(0).tok),
+                       opt_inst(v, UTC) if st == "ok" else E(v),
+                       {"date": str(d), "latitude": lat, "longitude": lon, "zone": "fixed+0",
+                        "sweep_day": k}, ("sweep",))
     for i in range(n):
         lat = gens.rand_lat(rng, polar=(rng.random() < 0.3))
         lon = gens.rand_lon(rng)
